@@ -1,5 +1,6 @@
 import HapModel.Drv.Basic
 import HapModel.Model.HapFormat
+import HapModel.Model.HapHeader
 namespace Drv
 open Lean HapFormat
 
@@ -16,5 +17,14 @@ def hHapParse (j : Json) : R Json := do
   match parse c lines with
   | none => pure <| jObj [("data", Json.null)]
   | some d => pure <| jObj [("data", jArr (d.map (fun hv => jArr [recJ hv.1, jArr (hv.2.map recJ)])))]
+
+/-- {"op":"hapHeader","H":[names],"V":[names],"R":[names],"lines":[[fields]…]} → the `#t name` pairs check_header reports -/
+def hHapHeader (j : Json) : R Json := do
+  let names := fun (k : String) => (optF (listOf str) j k)
+  let h ← names "H"; let v ← names "V"; let r ← names "R"
+  let lines ← listF (listOf str) j "lines"
+  let c : Classes := ⟨fun t => ((match t with | .H => h | .V => v | .R => r).getD []).map (fun n => (n, "", ""))⟩
+  pure <| jObj [("reported", Json.bool (reported c lines)),
+                ("missing", jArr ((missing c lines).map (fun p => jArr [jStr p.1.sym, jStr p.2])))]
 
 end Drv
